@@ -15,6 +15,12 @@ type Target struct {
 	Family string     // generic | wrapper | cert | cose | fdo (used in finding keys)
 	New    func() any // fresh pointer to decode into
 	Wrap   bool       // bstr .cbor target: accepting a byte string requires WrappedExact
+
+	// where the target nests items in byte strings: the schema Cbor_Nest.tla assigns to it (BindSchemas)
+	Schema     *Schema
+	SchemaIdx  int
+	SchemaName string
+	Composite  bool // composition of decoders that are targets themselves (see runUnit)
 }
 
 type plainStruct struct {
@@ -51,7 +57,9 @@ func wrapTgt[T any](name string) Target {
 }
 
 // Targets lists every decode target of the sweep.
-func Targets() []Target {
+func Targets() []Target { return append(baseTargets(), nestTargets()...) }
+
+func baseTargets() []Target {
 	return []Target{
 		tgt[any]("any", "generic"),
 		tgt[cbor.RawBytes]("cbor.RawBytes", "generic"),
